@@ -246,7 +246,7 @@ fn programs() -> Vec<(&'static str, Vec<Def>)> {
         ("structs: tags, optionals, nested type expressions, attributes with escapes", vec![
             Def::Custom { attrs: vec![a("cs::type", &["System.Guid"])], name: "Guid" },
             Def::Struct { attrs: vec![], name: "Empty", compact: false, fields: vec![] },
-            Def::Struct { attrs: vec![a("foo::bar", &["a", "b c", "say \"hi\"", "back\\slash"]), a("deprecated", &["old"])], name: "S", compact: false, fields: vec![
+            Def::Struct { attrs: vec![a("foo::bar", &["a", "b c", "say \"hi\"", "back\\slash", "C:\\generated\\", "Größe 日本", "\\"]), a("deprecated", &["old"])], name: "S", compact: false, fields: vec![
                 m("a", "bool"), mt("b", 0, "int32?"), mt("c", 2147483647, "Sequence<Dictionary<string, Sequence<Guid?>>>?"),
                 Member { attrs: vec![a("x::y", &[])], ty_attrs: vec![a("cs::type", &["List"])], ..m("d", "Sequence<Result<Empty, varuint62>>") }, m("e", "M::Empty"), m("f", "::M::Guid?") ] },
             Def::Struct { attrs: vec![], name: "C", compact: true, fields: vec![m("only", "Empty")] },
